@@ -147,6 +147,20 @@ class C04(Check):
             except ZeroDivisionError:
                 raised = True
             eng.claim("dynamic: size restored after a failing render", raised and img.size is m)
+            # the render fails before the renderer runs: the source cannot be opened
+            raised = False
+
+            def gone():
+                raise FileNotFoundError("source vanished")
+
+            img._get_image = gone
+            try:
+                img._renderer(lambda im: None)
+            except FileNotFoundError:
+                raised = True
+            finally:
+                del img._get_image
+            eng.claim("dynamic: size restored after a render whose source could not be opened", raised and img.size is m)
             eng.reachable()
             eng.observe("rendered_size", (rs[0], rs[1]))
             return
